@@ -305,6 +305,45 @@ let driverprops_line line =
   let worst = Stdlib.List.fold_left (fun m id -> max m (int_of_nat (Driver.count_ends id tr))) 0 ids in
   Stdlib.Printf.sprintf "%b %d" (Driver.lifecycle_ok_b tr) worst
 
+(* ---- node.rs: trace inclusion ------------------------------------------------------------------ *)
+let node_line mode_unused line =
+  ignore mode_unused;
+  let thr = function "n" -> Node.TNet | "s" -> Node.TSig | _ -> Node.TExt in
+  let ids t = if t = "" then [] else Stdlib.List.map n_of_string (split ',' t) in
+  let parse w =
+    match split ':' w with
+    | [ "cp"; l ] -> Node.LCachePoll (ids l)
+    | [ "st" ] -> Node.LStart
+    | [ "rp" ] -> Node.LReplayPop
+    | [ "re" ] -> Node.LReplayEmpty
+    | [ "lc"; t ] -> Node.LLoopCheck (thr t)
+    | [ "po"; l ] -> Node.LPoll (ids l)
+    | [ "sr"; "-" ] -> Node.LSigRecv None
+    | [ "sr"; i ] -> Node.LSigRecv (Some (n_of_string i))
+    | [ "lk"; t ] -> Node.LLock (thr t)
+    | [ "ck"; t ] -> Node.LCheck (thr t)
+    | [ "ce"; t ] -> Node.LCbEnter (thr t)
+    | [ "cs"; t ] -> Node.LCbStop (thr t)
+    | [ "cx"; t ] -> Node.LCbExit (thr t)
+    | [ "ul"; t ] -> Node.LUnlock (thr t)
+    | [ "xs" ] -> Node.LExtStop
+    | _ -> failwith ("bad node label " ^ w)
+  in
+  let ws = words line in
+  (* which listener mode produced the trace: the sync replay checks without a lock *)
+  let rec sync_replay = function "rp" :: "ck:n" :: _ -> true | "rp" :: "lk:n" :: _ -> false | _ :: r -> sync_replay r | [] -> false in
+  let has w = Stdlib.List.mem w ws in
+  let m = if sync_replay ws then Node.Sync else if has "rp" then Node.Async else if has "lk:s" && not (has "re") then Node.Async else Node.Async in
+  let try_mode m =
+    let rec go k st = function
+      | [] -> "ok"
+      | w :: r -> ( match Node.nstep st (parse w) with Some st' -> go (k + 1) st' r | None -> Stdlib.Printf.sprintf "REJECTED@%d:%s" k w)
+    in
+    go 0 (Node.ninit m) ws
+  in
+  let r1 = try_mode m in
+  if r1 = "ok" then r1 else (let r2 = try_mode (match m with Node.Sync -> Node.Async | Node.Async -> Node.Sync) in if r2 = "ok" then r2 else r1)
+
 let () =
   let core = Sys.argv.(1) in
   let mode = if Stdlib.Array.length Sys.argv > 2 && Sys.argv.(2) = "wrapping" then Base.Wrapping else Base.Checked in
@@ -318,6 +357,7 @@ let () =
     | "queuelog" -> queuelog_line
     | "driver" -> driver_line
     | "driverprops" -> driverprops_line
+    | "node" -> node_line mode
     | "queuelabels" -> queuelabels_line
     | _ -> failwith ("unknown core " ^ core)
   in
